@@ -37,6 +37,8 @@ type faultConn struct {
 	failReadAt  int
 	closed      int32
 	onRead      func() // runs once, after the next read that returned data and before the data is handed to the caller
+	gate        chan struct{} // if set: the next read that returned data waits here and then fails
+	gateHit     chan struct{}
 }
 
 func (c *faultConn) Write(b []byte) (int, error) {
@@ -65,9 +67,16 @@ func (c *faultConn) Read(b []byte) (int, error) {
 		c.mu.Lock()
 		h := c.onRead
 		c.onRead = nil
+		g, gh := c.gate, c.gateHit
+		c.gate = nil
 		c.mu.Unlock()
 		if h != nil {
 			h()
+		}
+		if g != nil {
+			close(gh)
+			<-g
+			return 0, errors.New("injected read failure (released together with a local close)")
 		}
 	}
 	return k, err
@@ -134,6 +143,38 @@ func runWsTrial(id int, seed int64, url string) *wsTrialResult {
 	res := &wsTrialResult{id: id}
 	fail := func(f string, a ...any) { res.bad = append(res.bad, fmt.Sprintf(f, a...)) }
 
+	nWriters := 1 + rnd.Intn(8)
+	perWriter := 1 + rnd.Intn(6)
+	kinds := []string{"local", "localreason", "peerclose", "cut", "writefault", "readfault", "peermsgs+local", "closeduringread", "local||readerror"}
+	kind := kinds[rnd.Intn(len(kinds))]
+	// now and then: a peer that stops reading, writers blocked on a full queue, then a local close with a reason -
+	// everything must come back once the transport write deadline (10 s) has passed
+	big := rnd.Intn(100) == 0
+	if big {
+		kind = "stalledpeer+localreason"
+	}
+	res.kind = kind
+	delay := time.Duration(rnd.Intn(1500)) * time.Microsecond
+
+	// every call into the connection is watched: one that does not come back is the finding (C12: "always returns"),
+	// the trial is abandoned with its goroutines
+	var hungFlag atomic.Bool
+	guarded := func(what string, d time.Duration, f func()) bool {
+		if hungFlag.Load() {
+			return false
+		}
+		ch := make(chan struct{})
+		go func() { defer close(ch); f() }()
+		select {
+		case <-ch:
+			return true
+		case <-time.After(d):
+			hungFlag.Store(true)
+			fail("C12: C13: %s did not return within %s (blocked); kind=%s", what, d, res.kind)
+			return false
+		}
+	}
+
 	peerCh := make(chan *websocket.Conn, 1)
 	key := fmt.Sprint(id)
 	wsPeers.Store(key, peerCh)
@@ -161,8 +202,13 @@ func runWsTrial(id int, seed int64, url string) *wsTrialResult {
 	var peerMu sync.Mutex
 	var peerGot [][]byte
 	peerDone := make(chan struct{})
+	peerMayRead := make(chan struct{})
+	if !big {
+		close(peerMayRead)
+	}
 	go func() {
 		defer close(peerDone)
+		<-peerMayRead
 		for {
 			_, m, err := peer.ReadMessage()
 			if err != nil {
@@ -178,12 +224,6 @@ func runWsTrial(id int, seed int64, url string) *wsTrialResult {
 	sut := ws.NewWebsocketConnection(conn, "ski")
 	sut.InitDataProcessing(reader)
 
-	nWriters := 1 + rnd.Intn(8)
-	perWriter := 1 + rnd.Intn(6)
-	kinds := []string{"local", "localreason", "peerclose", "cut", "writefault", "readfault", "peermsgs+local", "closeduringread"}
-	kind := kinds[rnd.Intn(len(kinds))]
-	res.kind = kind
-	delay := time.Duration(rnd.Intn(1500)) * time.Microsecond
 
 	type wres struct {
 		accepted [][]byte
@@ -208,6 +248,9 @@ func runWsTrial(id int, seed int64, url string) *wsTrialResult {
 			wrnd := rand.New(rand.NewSource(seed*131 + int64(i))) // math/rand sources are not safe for concurrent use
 			for j := 0; j < perWriter; j++ {
 				msg := []byte{1, byte(i), byte(j), 0xAA}
+				if big {
+					msg = append(msg, make([]byte, 1<<20)...)
+				}
 				closedBefore, _ := sut.IsDataConnectionClosed()
 				err := sut.WriteMessageToWebsocketConnection(msg)
 				if err == nil {
@@ -237,22 +280,48 @@ func runWsTrial(id int, seed int64, url string) *wsTrialResult {
 	time.Sleep(delay)
 	switch kind {
 	case "local", "peermsgs+local":
-		sut.CloseDataConnection(4001, "")
+		guarded("CloseDataConnection(4001, \"\")", 15*time.Second, func() { sut.CloseDataConnection(4001, "") })
+	case "stalledpeer+localreason":
+		time.Sleep(300 * time.Millisecond)
+		guarded("CloseDataConnection(4001, \"bye\") with a stalled peer and blocked writers", 25*time.Second, func() { sut.CloseDataConnection(4001, "bye") })
+		close(peerMayRead)
 	case "localreason":
-		sut.CloseDataConnection(4001, "bye")
+		guarded("CloseDataConnection(4001, \"bye\")", 15*time.Second, func() { sut.CloseDataConnection(4001, "bye") })
 	case "peerclose":
 		_ = peer.WriteMessage(websocket.CloseMessage, websocket.FormatCloseMessage(4000+rnd.Intn(500), "peer"))
 	case "closeduringread":
 		// the frame is taken from the socket, then the connection is closed locally, then the read returns it
 		fc.mu.Lock()
 		fc.onRead = func() {
-			sut.CloseDataConnection(4001, "")
+			guarded("CloseDataConnection(4001, \"\") during a read", 15*time.Second, func() { sut.CloseDataConnection(4001, "") })
 			reader.mu.Lock()
 			reader.closedNow = true
 			reader.mu.Unlock()
 		}
 		fc.mu.Unlock()
 		_ = peer.WriteMessage(websocket.BinaryMessage, []byte{1, 0xDD, 0xDD})
+	case "local||readerror":
+		// two closing events within a few instructions of each other: a read that fails and a local close
+		gate, hit := make(chan struct{}), make(chan struct{})
+		fc.mu.Lock()
+		fc.gate, fc.gateHit = gate, hit
+		fc.mu.Unlock()
+		_ = peer.WriteMessage(websocket.BinaryMessage, []byte{1, 0xDE, 0xDE})
+		select {
+		case <-hit:
+			var goFlag atomic.Bool
+			go func() {
+				for !goFlag.Load() {
+				}
+				close(gate)
+			}()
+			time.Sleep(50 * time.Microsecond)
+			goFlag.Store(true)
+			guarded("CloseDataConnection(4001, \"\") racing with a read error", 15*time.Second, func() { sut.CloseDataConnection(4001, "") })
+		case <-time.After(2 * time.Second):
+			close(gate)
+			guarded("CloseDataConnection(4001, \"\")", 15*time.Second, func() { sut.CloseDataConnection(4001, "") })
+		}
 	case "cut":
 		_ = peer.UnderlyingConn().Close()
 	case "writefault":
@@ -271,9 +340,12 @@ func runWsTrial(id int, seed int64, url string) *wsTrialResult {
 	go func() { wg.Wait(); close(done) }()
 	select {
 	case <-done:
-	case <-time.After(3 * time.Second):
-		fail("C12: a writer did not return within 3 s")
-		sut.CloseDataConnection(4001, "")
+	case <-time.After(25 * time.Second):
+		fail("C12: a writer did not return within 25 s")
+		guarded("CloseDataConnection after a stuck writer", 5*time.Second, func() { sut.CloseDataConnection(4001, "") })
+		return res
+	}
+	if hungFlag.Load() {
 		return res
 	}
 	// a write fault only shows when something is written; make sure the connection does end
@@ -282,7 +354,9 @@ func runWsTrial(id int, seed int64, url string) *wsTrialResult {
 			if c, _ := sut.IsDataConnectionClosed(); c {
 				break
 			}
-			_ = sut.WriteMessageToWebsocketConnection([]byte{1, 0xEE, byte(k)})
+			if !guarded("Write (probe)", 15*time.Second, func() { _ = sut.WriteMessageToWebsocketConnection([]byte{1, 0xEE, byte(k)}) }) {
+				return res
+			}
 			time.Sleep(2 * time.Millisecond)
 		}
 	}
@@ -297,12 +371,16 @@ func runWsTrial(id int, seed int64, url string) *wsTrialResult {
 	closed, cerr := sut.IsDataConnectionClosed()
 	if !closed {
 		fail("C13: connection not closed after %s", kind)
-		sut.CloseDataConnection(4001, "")
+		guarded("CloseDataConnection", 15*time.Second, func() { sut.CloseDataConnection(4001, "") })
 	} else if cerr == nil {
 		fail("C13: closed-query returned a nil error")
 	}
 	// a write now must fail
-	if err := sut.WriteMessageToWebsocketConnection([]byte{1, 0xFF}); err == nil {
+	var lastErr error
+	if !guarded("Write on the closed connection", 15*time.Second, func() { lastErr = sut.WriteMessageToWebsocketConnection([]byte{1, 0xFF}) }) {
+		return res
+	}
+	if lastErr == nil {
 		fail("C12: write on a closed connection returned nil")
 	}
 	time.Sleep(20 * time.Millisecond)
@@ -324,6 +402,9 @@ func runWsTrial(id int, seed int64, url string) *wsTrialResult {
 	peerMu.Unlock()
 	per := make([][][]byte, nWriters)
 	for _, m := range got {
+		if big && len(m) == 4+1<<20 {
+			m = m[:4]
+		}
 		if len(m) == 4 && m[0] == 1 && m[3] == 0xAA && int(m[1]) < nWriters {
 			per[m[1]] = append(per[m[1]], m)
 		} else if len(m) >= 2 && m[1] == 0xEE {
@@ -339,7 +420,7 @@ func runWsTrial(id int, seed int64, url string) *wsTrialResult {
 			continue
 		}
 		for k := range per[i] {
-			if !bytes.Equal(per[i][k], wr[i].accepted[k]) {
+			if !bytes.Equal(per[i][k], wr[i].accepted[k][:4]) {
 				fail("C12: writer %d: peer got %x at position %d, accepted was %x (reordered, duplicated or gap)", i, per[i][k], k, wr[i].accepted[k])
 				break
 			}
@@ -350,9 +431,14 @@ func runWsTrial(id int, seed int64, url string) *wsTrialResult {
 	reports, afterErr, ndel := reader.reports, reader.afterErr, len(reader.delivered)
 	reader.mu.Unlock()
 	switch kind {
-	case "local", "localreason", "peermsgs+local", "closeduringread":
+	case "local", "localreason", "peermsgs+local", "closeduringread", "stalledpeer+localreason":
 		if reports != 0 {
 			fail("C13: %d error reports after a deliberate local close", reports)
+		}
+	case "local||readerror":
+		// either event may have won
+		if reports > 1 {
+			fail("C13: %d error reports after %s (at most one)", reports, kind)
 		}
 	default:
 		if reports != 1 {
